@@ -38,6 +38,7 @@ type runner struct {
 	aborted       bool
 	nviol         int
 	diskUnchecked string
+	unexpected    map[string]bool
 	dups          bool // some resource lists the same version number more than once
 }
 
@@ -362,8 +363,18 @@ func (x *runner) checkState(op string) {
 		x.b.Max("max_versions_listed", int64(len(s.list)))
 	}
 	for id := range snaps {
-		if x.m.Res[id] == nil {
-			x.violate("C19:listing:"+op+":unexpected-resource", fmt.Sprintf("after %s the registry holds resource %q, which was never defined", op, id), nil)
+		if x.m.Res[id] == nil && !x.unexpected[id] {
+			if x.unexpected == nil {
+				x.unexpected = map[string]bool{}
+			}
+			x.unexpected[id] = true // reported once, where it appeared
+			var ghosts []string
+			for _, e := range snaps[id].list {
+				if _, err := os.Stat(x.abs(refVersionedPath(id, e.Ver))); e.Avail && err != nil {
+					ghosts = append(ghosts, e.Ver)
+				}
+			}
+			x.violate("C19:listing:"+op+":unexpected-resource", fmt.Sprintf("after %s the registry holds resource %q, which was never defined and matches no file path relative to the storage dir; versions listed as available without a file: %v", op, id, ghosts), nil)
 		}
 	}
 	switch op {
@@ -453,8 +464,10 @@ func (x *runner) run() {
 			x.checkState("SetFlag")
 		case "purge":
 			x.opPurge(o)
+		case "announce":
+			x.opAnnounce(o)
 		case "scan":
-			x.opScan()
+			x.opScan(o)
 		case "getselected":
 			x.opGetSelected()
 		}
@@ -840,16 +853,23 @@ func keys(m map[string]bool) []string {
 	return s
 }
 
-func (x *runner) opScan() {
+func (x *runner) opScan(o opSpec) {
+	root, prefix := "", ""
+	if o.Root != "" {
+		if st, err := os.Stat(x.abs(o.Root)); err == nil && st.IsDir() {
+			root, prefix = x.abs(o.Root), o.Root+"/"
+			x.b.Count("scan_partial_with_subdirectory_root", 1)
+		}
+	}
 	var files []string
 	for f := range x.disk {
-		if !strings.HasSuffix(f, ".sig") {
+		if !strings.HasSuffix(f, ".sig") && strings.HasPrefix(f, prefix) {
 			files = append(files, f)
 		}
 	}
 	sort.Strings(files)
 	var err error
-	if !x.guard("ScanStorage", func() { err = x.reg.ScanStorage("") }) {
+	if !x.guard("ScanStorage", func() { err = x.reg.ScanStorage(root) }) {
 		return
 	}
 	if err != nil {
@@ -857,13 +877,60 @@ func (x *runner) opScan() {
 		x.aborted = true
 		return
 	}
+	// identifiers are paths relative to the storage dir, whatever the scan root was
 	for _, f := range files {
 		if id, ver, ok := refParsePath(f); ok {
 			x.m.add(id, ver, nil, true, false, false)
 			x.b.Count("scan_files_registered", 1)
+			if prefix != "" {
+				x.b.Count("scan_partial_files_registered", 1)
+			}
 		}
 	}
 	x.checkState("ScanStorage")
+}
+
+// opAnnounce: an index announces releases for several identifiers in one AddResources call.
+func (x *runner) opAnnounce(o opSpec) {
+	ridx, midx := x.idx[o.Idx-1], x.midx[o.Idx-1]
+	versions := map[string]string{}
+	for i, v := range o.Rel {
+		if v == "" || i >= len(x.c.Res) {
+			continue
+		}
+		versions[x.c.Res[i]] = v
+		if p, ok := parseRefVersion(v); ok && o.Avail {
+			x.touch(refVersionedPath(x.c.Res[i], p.Key))
+		}
+	}
+	if len(versions) == 0 {
+		return
+	}
+	var err error
+	if !x.guard("AddResources", func() { err = x.reg.AddResources(versions, ridx, o.Avail, o.Cur, o.Pre) }) {
+		return
+	}
+	if err != nil {
+		x.b.Note("case %d: AddResources(%v): %v - history dropped", x.c.No, versions, err)
+		x.aborted = true
+		return
+	}
+	for id, v := range versions {
+		mr := x.m.Res[id]
+		if mr != nil && o.Cur && !o.Avail {
+			if p, ok := parseRefVersion(v); ok {
+				if cur := mr.find(p.Key); cur != nil && cur.Cur && mr.Index != midx {
+					x.b.Count("announce_same_current_release_by_another_index", 1)
+					if mr.Index != nil && mr.Index.Auto != midx.Auto {
+						x.b.Count("announce_same_current_release_by_index_with_other_autodownload", 1)
+					}
+				}
+			}
+		}
+		x.m.add(id, v, midx, o.Avail, o.Cur, o.Pre) // the resource belongs to the index that announced it last
+	}
+	x.b.Count("announce_resources", int64(len(versions)))
+	x.checkState("AddResources")
 }
 
 func (x *runner) opGetSelected() {
